@@ -1135,7 +1135,9 @@ fn parse_circuit_inputs<'a>(
             let idx = args_as_single_value(&long_id.generic_args)?
                 .to_usize()
                 .ok_or(SpecializationError::UnsupportedGenericArg)?;
-            assert!(inputs.insert(idx, ty).is_none());
+            // Two different input types with the same index are not a valid circuit.
+            require(inputs.insert(idx, ty).is_none())
+                .ok_or(SpecializationError::UnsupportedGenericArg)?;
         } else {
             // The info of an inner type may come from its declaration alone (it was not necessarily
             // specialized yet), so its shape is validated here: it must be a gate with the right
